@@ -31,6 +31,12 @@ CHECKS = {
    note="Trusted: the reference model (15 lines) encodes the property statement; the host never stores objects into untrusted contexts itself; bloc_deinit_plugins only after everything is released. The dynamic loader runs for real.",
    technique="deterministic simulation: seeded multi-actor histories over process-wide singletons, reference-model oracle + in-plugin creation monitor, finite core enumerated",
    design="DESIGN.md section 4 (C16)"),
+ "C17": dict(
+   level="exploration",
+   text="An instrumented module (vf) turns object lifetime into an event trace. Generated programs create, copy, store into tables and tuples, pass to and return from functions, overwrite and iterate object references and use them as temporaries; the simulator injects the error exits (runtime errors at fault points inside expressions, natural errors, bloc_break before statement #k) and then drives a host history over the same compiled program: run again, clone, run in the clone, clone of clone, purge, free clone, free original in sampled orders. Checked while running (every top-level statement boundary, every host step): no live variable, element or item refers to a destroyed object, no object destroyed twice, no method on a dead or foreign object, argument lists seen by the plugin are the ones written in the script; checked after release: every object destroyed exactly once. The threaded form of the same ledger check is part of C14's plans.",
+   note="Trusted: the vf plugin's ledger; delayed destruction (temporary pool, function context cache) is legal until the owning contexts are released, so 'no later' is only asserted after release; reachability is computed by the deep dump of every live context.",
+   technique="deterministic simulation: fault-point / cancel / lifecycle injection over generated object-handling programs, plugin event-log oracle (exactly-once, no use after destroy), ASan monitor",
+   design="DESIGN.md section 4 (C17)"),
 }
 
 NOT_APPLICABLE = {
